@@ -79,7 +79,10 @@ from ..const import (
 
 IPADDRESS_SUPPORTS_SCOPE_ID = sys.version_info >= (3, 9, 0)
 
-_RECORD_CREATED_GETTER = attrgetter('created')
+# A record that the cache flush bit of a newer one has marked to expire is
+# re-stamped with the arrival time of that newer record and a TTL of one second:
+# on equal creation time the record with the longer TTL is the one received.
+_RECORD_CREATED_GETTER = attrgetter('created', 'ttl')
 
 _IPVersion_All_value = IPVersion.All.value
 _IPVersion_V4Only_value = IPVersion.V4Only.value
